@@ -267,17 +267,31 @@ enum Line {
 
 fn spawn_worker(batch: &str, skip: usize) -> (Child, mpsc::Receiver<Line>) {
     let exe = std::env::current_exe().expect("current_exe");
-    let mut child = Command::new(exe)
-        .arg("doc-cost-worker")
-        .arg("--batch")
-        .arg(batch)
-        .arg("--skip")
-        .arg(skip.to_string())
-        .stdin(Stdio::null())
-        .stdout(Stdio::piped())
-        .stderr(Stdio::null())
-        .spawn()
-        .expect("spawn worker");
+    // the machine may be short of processes for a moment: retry before giving up
+    let mut attempt = 0;
+    let mut child = loop {
+        match Command::new(&exe)
+            .arg("doc-cost-worker")
+            .arg("--batch")
+            .arg(batch)
+            .arg("--skip")
+            .arg(skip.to_string())
+            .stdin(Stdio::null())
+            .stdout(Stdio::piped())
+            .stderr(Stdio::null())
+            .spawn()
+        {
+            Ok(c) => break c,
+            Err(e) => {
+                attempt += 1;
+                if attempt > 50 {
+                    eprintln!("cannot start a worker process: {}", e);
+                    std::process::exit(2);
+                }
+                std::thread::sleep(Duration::from_millis(200));
+            }
+        }
+    };
     let stdout = child.stdout.take().unwrap();
     let (tx, rx) = mpsc::channel();
     std::thread::spawn(move || {
@@ -453,7 +467,7 @@ fn run(args: &[String]) -> i32 {
         let results = results.clone();
         let scratch = scratch.clone();
         handles.push(std::thread::spawn(move || loop {
-            let item = queue.lock().unwrap().pop();
+            let item = queue.lock().unwrap_or_else(|e| e.into_inner()).pop();
             let (_k, (a, b)) = match item {
                 Some(x) => x,
                 None => break,
@@ -461,7 +475,7 @@ fn run(args: &[String]) -> i32 {
             let texts: Vec<&str> = cases[a..b].iter().map(|c| c.text.as_str()).collect();
             let path = format!("{}/job{}.batch", scratch, j);
             let obs = run_chunk(&texts, &path, Duration::from_millis(limit_ms));
-            let mut r = results.lock().unwrap();
+            let mut r = results.lock().unwrap_or_else(|e| e.into_inner());
             for (k, o) in obs.into_iter().enumerate() {
                 r[a + k] = Some(o);
             }
@@ -470,11 +484,31 @@ fn run(args: &[String]) -> i32 {
     for h in handles {
         let _ = h.join();
     }
+    // inputs whose job thread died (should not happen) are run here, one by one
+    {
+        let mut r = results.lock().unwrap_or_else(|e| e.into_inner());
+        let mut lost = 0usize;
+        for i in 0..cases.len() {
+            let missing = match &r[i] {
+                None => true,
+                Some(o) => o.outcome == "toolerror" || o.outcome == "?",
+            };
+            if missing {
+                lost += 1;
+                let path = format!("{}/lost.batch", scratch);
+                let obs = run_chunk(&[cases[i].text.as_str()], &path, Duration::from_millis(limit_ms));
+                r[i] = obs.into_iter().next();
+            }
+        }
+        if lost > 0 {
+            eprintln!("{} inputs were re-run after a worker thread failed", lost);
+        }
+    }
     // A time-out must reproduce when the input is run again on its own (nothing else running):
     // the limit is wall-clock time, and eight parallel workers on a busy machine can starve one.
     let mut retried = vec![false; cases.len()];
     {
-        let mut r = results.lock().unwrap();
+        let mut r = results.lock().unwrap_or_else(|e| e.into_inner());
         for i in 0..cases.len() {
             if r[i].as_ref().map(|o| o.outcome == "timeout").unwrap_or(false) {
                 let path = format!("{}/retry.batch", scratch);
@@ -487,7 +521,7 @@ fn run(args: &[String]) -> i32 {
     let _ = std::fs::remove_dir_all(&scratch);
 
     let mut w = open_out(outp);
-    let results = results.lock().unwrap();
+    let results = results.lock().unwrap_or_else(|e| e.into_inner());
     let mut tool_errors = 0;
     for (k, (c, o)) in cases.iter().zip(results.iter()).enumerate() {
         let o = o.clone().unwrap_or(Obs { outcome: "toolerror".into(), ..Default::default() });
